@@ -216,7 +216,7 @@ Theorem C14_source_drain_bounds : forall len cap base s e,
   call_fn src_fns en "string_drain_end" [vrange s e] = opt_or_panic (VecModel.range_end e len).
 Proof. exact src_string_drain_bounds_ok. Qed.
 
-Theorem C14_source_frames : forallb snd src_frames_string = true /\ List.length src_frames_string = 13%nat.
+Theorem C14_source_frames : forallb snd src_frames_string = true /\ List.length src_frames_string = 14%nat.
 Proof. split; [exact src_frames_string_ok | reflexivity]. Qed.
 
 (* those moves, done to a buffer with any spare capacity behind the text, give the model's result:
